@@ -206,6 +206,54 @@ func runC13(c *eng.Ctx) {
 	}
 }
 
+func init() { core.C11CreateVsClose = runC11CreateVsClose }
+
+// runC11CreateVsClose: CreateScope on a scope that owns disposable instances, parked at every
+// user-code callback and every internal yield point it passes, while that scope / its parent /
+// the provider is closed; judged by the C11 order rules over the complete history.
+func runC11CreateVsClose(c *eng.Ctx, next func() (int, bool)) {
+	for _, sc := range overlapScenarios() {
+		// provider.Close cannot know a scope whose creation is still in flight: what such a scope's
+		// initializers built is disposed when the creation fails, after the singletons. C11 is
+		// stated over histories, not schedules, so that overlap is not judged here (C10 and C13
+		// judge it: closed exactly once, disposed error)
+		if sc.op.Kind != core.OpCreate || sc.closer == "cancel" || sc.closer == "provider-close" {
+			continue
+		}
+		dry, anc, leaf := c13Setup(sc)
+		if !dry.Built {
+			continue
+		}
+		op := sc.op
+		op.Scope = leaf
+		if sc.onParent {
+			op.Scope = 0
+		}
+		before := len(core.Digest(dry).Runs)
+		dry.Do(op)
+		points := len(core.Digest(dry).Runs) - before
+		dry.Finish()
+		for j := 1; j <= points; j++ {
+			idx, mine := next()
+			if !mine {
+				continue
+			}
+			c.R.Begin(idx)
+			overlapAtFor(c, "C11", idx, sc, anc, leaf, j, false, false)
+		}
+		if rt.YieldAvailable {
+			for j, n := 1, countYields(sc, false); j <= n; j++ {
+				idx, mine := next()
+				if !mine {
+					continue
+				}
+				c.R.Begin(idx)
+				overlapAtFor(c, "C11", idx, sc, anc, leaf, j, false, true)
+			}
+		}
+	}
+}
+
 // overlapOnce executes one (scenario, pause point) pair.
 func overlapOnce(c *eng.Ctx, idx int, sc overlapScenario, a, b int, j int, mirror bool) {
 	overlapAt(c, idx, sc, a, b, j, mirror, false)
@@ -214,7 +262,16 @@ func overlapOnce(c *eng.Ctx, idx int, sc overlapScenario, a, b int, j int, mirro
 // overlapAt with internal=true parks the first operation at the j-th INTERNAL yield point it
 // passes (godi's instrumentation points between critical sections, build tag verif) instead of
 // at a user-code callback.
-func overlapAt(c *eng.Ctx, idx int, sc overlapScenario, _, _ int, j int, mirror bool, internal bool) {
+func overlapAt(c *eng.Ctx, idx int, sc overlapScenario, a, b int, j int, mirror bool, internal bool) {
+	overlapAtFor(c, "C13", idx, sc, a, b, j, mirror, internal)
+}
+
+// overlapAtFor with prop "C11" runs the same schedule but judges the DISPOSAL ORDER of the whole
+// history (MonC11) instead of C13's clauses: the scope on which the overlapped CreateScope was
+// issued owns disposable instances, a child that is returned alive gets instances of its own,
+// and at the end of the history no instance of a descendant may have been closed after an
+// instance of its ancestor.
+func overlapAtFor(c *eng.Ctx, prop string, idx int, sc overlapScenario, _, _ int, j int, mirror bool, internal bool) {
 	r, anc, leaf := c13Setup(sc)
 	if !r.Built {
 		c.R.End(idx, eng.Hash("c13-unbuilt", sc.name), false)
@@ -226,7 +283,7 @@ func overlapAt(c *eng.Ctx, idx int, sc overlapScenario, _, _ int, j int, mirror 
 		op.Scope = 0
 	}
 	closer := sc.closerOp(anc, leaf)
-	if mirror {
+	if mirror || prop == "C11" {
 		// make sure there is something to dispose
 		core.ProbeRegistered(r, leaf)
 		core.ProbeRegistered(r, anc)
@@ -304,7 +361,12 @@ func overlapAt(c *eng.Ctx, idx int, sc overlapScenario, _, _ int, j int, mirror 
 		feat += "-at-" + strings.TrimPrefix(pausedAt, "yield:")
 		cmu.Unlock()
 	}
-	if v := awaitOrDiagnose(done, 60*time.Second); !v.Done {
+	if v := awaitOrDiagnose(done, 60*time.Second); !v.Done && prop != "C13" {
+		c.R.Inconclusive(idx, "overlap did not finish within the watchdog (judged by C13)")
+		c.R.Abandon(idx)
+		r.Rec.SetHook(nil)
+		return
+	} else if !v.Done {
 		if v.Deadlock {
 			c.R.Violation(eng.Violation{Prop: "C13", Clause: "hang", Sig: "C13/hang:" + feat + ":" + innermostGodiFn(v.Dump), Case: idx, CaseID: feat, Detail: fmt.Sprintf("%s, pause point %d: operations never returned; goroutines stuck inside godi:\n%s", feat, j, v.Dump)})
 		} else {
@@ -316,6 +378,29 @@ func overlapAt(c *eng.Ctx, idx int, sc overlapScenario, _, _ int, j int, mirror 
 	opRes, clRes := firstRes, secondRes
 	if mirror {
 		opRes, clRes = secondRes, firstRes
+	}
+	if prop == "C11" {
+		if !r.Poisoned && op.Kind == core.OpCreate && opRes.Class == "ok" && opRes.NewScope > 0 {
+			// a child that came back alive: give it disposable instances of its own
+			core.ProbeRegistered(r, opRes.NewScope)
+			c.R.Count("overlapped_create_returned_scope", 1)
+		}
+		var fs []core.Finding
+		pairs := 0
+		if !r.Poisoned {
+			r.Finish()
+			fs, pairs = core.MonC11Exported(r, core.Digest(r))
+			for i := range fs {
+				fs[i].Sig = strings.TrimSuffix(fs[i].Sig+":"+feat, ":")
+			}
+		}
+		core.Report(c, "C11", idx, r, fs)
+		c.R.Count("create_vs_close_overlaps", 1)
+		c.R.Count("order_pairs_checked", int64(pairs))
+		c.R.Count("op_result_"+opRes.Class, 1)
+		_ = clRes
+		c.R.End(idx, eng.Hash("c11-create-vs-close", feat, j), reached)
+		return
 	}
 	var fs []core.Finding
 	okClasses := map[string]bool{"ok": true, "scope-disposed": true, "provider-disposed": true}
